@@ -169,12 +169,14 @@ class MenuConfigApp(App[str]):
         if filename:
             filename = os.path.expanduser(filename)
             success, error = self.state.try_load(filename)
+            # A file that fails half-way (e.g. on undecodable bytes) has changed values up to that point, too: the
+            # list is rebuilt in both cases
+            self.state.conf_changed = self.state.needs_save()
+            if self.state.selected_node not in self.state.shown_nodes(self.state.cur_menu):
+                self.state.show_all = True
+            self.state._update_menu()
+            self._refresh_menu()
             if success:
-                self.state.conf_changed = self.state.needs_save()
-                if self.state.selected_node not in self.state.shown_nodes(self.state.cur_menu):
-                    self.state.show_all = True
-                self.state._update_menu()
-                self._refresh_menu()
                 self.notify(f"Loaded {filename}")
             else:
                 self.notify(error or "Load failed", severity="error")
